@@ -56,6 +56,8 @@ def c01(v, tier, seed):
     wd, ex, bind = setup(v)
     q = tier == "quick"
     gen_and_replay(v, wd, ex, bind, "C01", tier, rnd, "get", ALL_VIEWS, 2 if q else 12, True, props=["ReadOnlyOps"])
+    # values that collide with in-band error codes (2^w - errno) read back through every path
+    gen_and_replay(v, wd, ex, bind, "C01", tier, rnd, "sentinel", ALL_VIEWS, 0, False, props=["ReadOnlyOps"])
     traces(v, wd, ex, bind, "C01", rnd, 24000 if q else 400000, ALL_VIEWS, ("get",), nshards=8 if q else 16)
     # the dedicated getter's return type must be able to carry the whole field
     layout = pdu.field_widths(wd)
@@ -78,6 +80,9 @@ def c02(v, tier, seed):
     wd, ex, bind = setup(v)
     q = tier == "quick"
     gen_and_replay(v, wd, ex, bind, "C02", tier, rnd, "set", ALL_VIEWS, 1 if q else 8, False,
+                   props=["FrameOK", "OthersKept"], invs=["ReadBack"], readback=True)
+    # prior contents related to the write's own result (one bit away from it, quadlet byte-reversed): "already in place" short cuts
+    gen_and_replay(v, wd, ex, bind, "C02", tier, rnd, "nearset", ALL_VIEWS, 0, False,
                    props=["FrameOK", "OthersKept"], invs=["ReadBack"], readback=True)
     traces(v, wd, ex, bind, "C02", rnd, 24000 if q else 400000, ALL_VIEWS, ("set",), nshards=8 if q else 16)
     v.cov["rule"] = ("TLC enumerates Set on every field x path x boundary values (0, 1, 2^w-1, 2^w, every single bit, all-ones, 0xAA.., 0x55..) "
@@ -167,6 +172,9 @@ def c04(v, tier, seed):
     q = tier == "quick"
     gen_and_replay(v, wd, ex, bind, "C04", tier, rnd, "init", ALL_VIEWS, 4 if q else 40, False, depth=2,
                    invs=["InitCanonical"], props=["FrameOK"])
+    # prior contents one bit away from an initialised header / canonical prefix followed by junk: "already initialised" short cuts
+    gen_and_replay(v, wd, ex, bind, "C04", tier, rnd, "nearinit", ALL_VIEWS, 0, False, depth=1 if q else 2,
+                   invs=["InitCanonical"], props=["FrameOK"])
     traces(v, wd, ex, bind, "C04", rnd, 6000 if q else 120000, sorted(bind.views), ("init",), nshards=4 if q else 16, name="random-inits")
     v.cov["rule"] = "every initialiser (current and legacy) x background images x exact/slack arenas, twice in a row (idempotence); random prior contents validated by PduTrace"
     v.cov["distinct_nontrivial"] = v.cov.get("replayed_transitions", 0)
@@ -231,6 +239,9 @@ def c12(v, tier, seed):
     facts(v, wd, bind, "C12", ("legacy",))
     for scn, nr, walk in (("get", 2, True), ("set", 1, False), ("init", 4, False)):
         gen_and_replay(v, wd, ex, bind, "C12", tier, rnd, scn, LEGACY_VIEWS, nr if q else nr * 6, walk, readback=(scn == "set"))
+    # in-band error values (2^w - errno), near-valid prior contents: where a wrapper's error convention or short cut could differ from the current API
+    for scn in ("sentinel", "nearset", "nearinit"):
+        gen_and_replay(v, wd, ex, bind, "C12", tier, rnd, scn, LEGACY_VIEWS, 0, False, readback=(scn == "nearset"))
     traces(v, wd, ex, bind, "C12", rnd, 8000 if q else 200000, LEGACY_VIEWS, ("get", "set", "init"), nshards=4 if q else 16, name="legacy-vs-current")
     # the repository's own unit tests (which drive the deprecated API) recorded through an LD_PRELOAD interposer
     unit_test_traces(v, wd, "C12")
@@ -247,6 +258,9 @@ def c17(v, tier, seed):
     mc_wire(v, wd)
     run_hist(v, wd, ex, bind, "C17", rnd, "views", ["G1", "G2", "G3", "G4"], 2, 3 if q else 5, [0, 1] if q else [0, 1, 5, 6], 1,
              ["ViewsAgree"], name="GenHist/views")
+    # a shared field written through each view's own entry points on prior contents one bit away from the result (every view
+    # is compared with the one specification of the shared field, so equal verdicts mean the views agree)
+    gen_and_replay(v, wd, ex, bind, "C17", tier, rnd, "nearshared", ALL_VIEWS, 0, False, props=["FrameOK"], readback=True)
     v.cov["rule"] = ("for every group of views sharing fields: every ordered pair (A,B) of views x shared field x values x images: write through A, "
                      "read through B on the same buffer; SharedWellFormed checked as an ASSUME")
     v.cov["distinct_nontrivial"] = v.cov.get("histories_replayed", 0)
